@@ -492,7 +492,7 @@ func certainlyNonNil(v ssa.Value) bool {
 			return true
 		}
 	case *ssa.UnOp:
-		if g, ok := x.X.(*ssa.Global); ok && x.Op == token.MUL && strings.HasPrefix(g.Name(), "Err") {
+		if g, ok := x.X.(*ssa.Global); ok && x.Op == token.MUL && (strings.HasPrefix(g.Name(), "Err") || strings.HasPrefix(g.Name(), "err")) && isErrorType(g.Type()) {
 			return true
 		}
 	}
@@ -869,7 +869,23 @@ func ReturnCases(fn *ssa.Function) []RetCase {
 				hasPhi = true
 			}
 		}
-		if !hasPhi || len(b.Preds) < 2 || depth > 3 {
+		if !hasPhi && depth <= 4 {
+			// a value merged further up (e.g. the result of a helper expanded in place, returned after a test): split at
+			// the nearest such merge block that dominates this point; the case is then identified by the edge into it
+			var d *ssa.BasicBlock
+			for _, v := range vals {
+				if p, ok := v.(*ssa.Phi); ok && p.Block() != b && p.Block().Dominates(b) && len(p.Block().Preds) >= 2 && !isLoopHeader(p.Block()) {
+					if d == nil || d.Dominates(p.Block()) {
+						d = p.Block()
+					}
+				}
+			}
+			if d != nil {
+				expand(r, d, vals, pred, succ, depth)
+				return
+			}
+		}
+		if !hasPhi || len(b.Preds) < 2 || depth > 4 {
 			out = append(out, RetCase{Ret: r, Pred: pred, Succ: succ, Values: vals})
 			return
 		}
@@ -886,6 +902,14 @@ func ReturnCases(fn *ssa.Function) []RetCase {
 			for j, sc := range p.Succs {
 				if sc == b {
 					si = j
+				}
+			}
+			// a split above the return's own block: drop operands that cannot reach this return with the facts their
+			// edge establishes (e.g. the `(nil, false, nil)` of "not decided" never takes the `if decided` branch)
+			if b != r.Block() {
+				env := enterBlock(p, b, Env{})
+				if (&Walk{Target: func(x ssa.Instruction) bool { return x == ssa.Instruction(r) }}).From(Point{B: b, I: 0}, env) == nil {
+					continue
 				}
 			}
 			expand(r, p, nv, p, si, depth+1)
@@ -1100,4 +1124,78 @@ func AfterEdge(e IfEdge) (Point, Env) {
 	refine(e.If.Cond, e.Succ == 0, env)
 	to := e.B.Succs[e.Succ]
 	return Point{B: to, I: 0}, enterBlock(e.B, to, env)
+}
+
+// PhiEdgeReaches: taking the k-th incoming edge of phi (with the nil/bool facts that edge establishes for the other
+// Phis of the block), can an instruction satisfying target still be reached? Used to discard placeholder operands
+// that travel together with an error (`return 0, err` expanded in place).
+func PhiEdgeReaches(phi *ssa.Phi, k int, target func(ssa.Instruction) bool) bool {
+	pred := phi.Block().Preds[k]
+	env := enterBlock(pred, phi.Block(), factsAt(pred))
+	return (&Walk{Target: target}).From(Point{B: phi.Block(), I: 0}, env) != nil
+}
+
+func isLoopHeader(b *ssa.BasicBlock) bool {
+	for _, p := range b.Preds {
+		if b.Dominates(p) {
+			return true
+		}
+	}
+	return false
+}
+
+// NilTestedAfterSplit: the k-th value of this return case is known nil (wantNil) / non-nil (!wantNil) at the return:
+// every path from the point where the case was split off (the merge block entered through Pred→Succ; the function
+// entry when nothing was split) to the return passes a nil test of that value — or of a Phi of the merge block that
+// carries the value on this edge — on the wanted side.
+func (rc RetCase) NilTestedAfterSplit(fn *ssa.Function, k int, wantNil bool) bool {
+	v := rc.Values[k]
+	edges := NilEdgesRes(fn, v, wantNil)
+	start := Entry(fn)
+	var env Env
+	if rc.Pred != nil {
+		d := rc.Pred.Succs[rc.Succ]
+		pi := -1
+		for i, p := range d.Preds {
+			if p == rc.Pred {
+				pi = i
+			}
+		}
+		for _, ins := range d.Instrs {
+			phi, ok := ins.(*ssa.Phi)
+			if !ok {
+				break
+			}
+			if pi >= 0 && phi.Edges[pi] == v {
+				edges = append(edges, NilEdgesOf(fn, phi, wantNil)...)
+			}
+		}
+		start = Point{B: d, I: 0}
+		env = enterBlock(rc.Pred, d, Env{})
+	}
+	if len(edges) == 0 {
+		return false
+	}
+	return (&Walk{EdgeOK: Forbid(edges), Target: func(x ssa.Instruction) bool { return x == ssa.Instruction(rc.Ret) }}).From(start, env) == nil
+}
+
+func isErrorType(t types.Type) bool {
+	if p, ok := t.Underlying().(*types.Pointer); ok {
+		t = p.Elem()
+	}
+	return types.Identical(t, types.Universe.Lookup("error").Type())
+}
+
+// factsAt: what the branch conditions on the way into block b establish, following b's chain of single predecessors
+// (each such predecessor that ends in an If contributes the truth value of its condition on the edge taken).
+func factsAt(b *ssa.BasicBlock) Env {
+	env := Env{}
+	for d := 0; d < 12 && len(b.Preds) == 1; d++ {
+		p := b.Preds[0]
+		if iff, ok := p.Instrs[len(p.Instrs)-1].(*ssa.If); ok && p.Succs[0] != p.Succs[1] {
+			refine(iff.Cond, p.Succs[0] == b, env)
+		}
+		b = p
+	}
+	return env
 }
